@@ -281,6 +281,14 @@ def gz_oracle(prop, toks_val):
                         flushed = False
                 else:
                     failed = True
+            elif code == 8:
+                # write_vectored: Ok(n) means the first n bytes of the concatenation of the slices
+                if isinstance(r, list) and r and r[0] == 0:
+                    accepted += b''.join(op[1])[:r[1]]
+                    if r[1] > 0:
+                        flushed = False
+                else:
+                    failed = True
             elif code == 1:
                 if r == [2]:
                     accepted += op[1]
